@@ -216,6 +216,52 @@ impl FixtureDatabase {
         offset.saturating_sub(line_start)
     }
 
+    /// Span `(line, start_char, end_char)` of the text that denotes `name` inside the string
+    /// literal at `range`: the occurrence of `name` on the literal's first line, behind its
+    /// opening quote, that is not part of a longer identifier. This is exact for prefixed
+    /// (`r"db"`), triple-quoted and comma-separated (`"db,client"`) literals. When the name
+    /// is not spelled out there (implicit concatenation, escapes) it falls back to the
+    /// literal without its first and last character.
+    fn string_usage_span(
+        &self,
+        content: &str,
+        range: rustpython_parser::text_size::TextRange,
+        name: &str,
+        line_index: &[usize],
+    ) -> (usize, usize, usize) {
+        let (lo, hi) = (range.start().to_usize(), range.end().to_usize());
+        let line = self.get_line_from_offset(lo, line_index);
+        let lo_char = self.get_char_position_from_offset(lo, line_index);
+        let first_line = content
+            .get(lo..hi)
+            .map(|src| src.split('\n').next().unwrap_or(src));
+        if let Some(src) = first_line {
+            let is_ident = |c: char| c.is_alphanumeric() || c == '_';
+            let mut from = src.find(['"', '\'']).map_or(0, |q| q + 1);
+            while !name.is_empty() && from <= src.len() {
+                let Some(k) = src[from..].find(name) else {
+                    break;
+                };
+                let at = from + k;
+                let before_ok = src[..at].chars().next_back().map_or(true, |c| !is_ident(c));
+                let after_ok = src[at + name.len()..]
+                    .chars()
+                    .next()
+                    .map_or(true, |c| !is_ident(c));
+                if before_ok && after_ok {
+                    return (line, lo_char + at, lo_char + at + name.len());
+                }
+                from = at + name.len();
+            }
+        }
+        (
+            line,
+            lo_char.saturating_add(1),
+            self.get_char_position_from_offset(hi, line_index)
+                .saturating_sub(1),
+        )
+    }
+
     /// Returns an iterator over all function arguments including positional-only,
     /// regular positional, and keyword-only arguments.
     /// This is needed because pytest fixtures can be declared as any of these types.
@@ -300,7 +346,12 @@ impl FixtureDatabase {
                 |target| matches!(target, Expr::Name(name) if name.id.as_str() == "pytestmark"),
             );
             if is_pytestmark {
-                self.visit_pytestmark_assignment(Some(&assign.value), file_path, line_index);
+                self.visit_pytestmark_assignment(
+                    Some(&assign.value),
+                    file_path,
+                    content,
+                    line_index,
+                );
             }
         }
 
@@ -314,6 +365,7 @@ impl FixtureDatabase {
                 self.visit_pytestmark_assignment(
                     ann_assign.value.as_deref(),
                     file_path,
+                    content,
                     line_index,
                 );
             }
@@ -325,12 +377,8 @@ impl FixtureDatabase {
             for decorator in &class_def.decorator_list {
                 let usefixtures = decorators::extract_usefixtures_names(decorator);
                 for (fixture_name, range) in usefixtures {
-                    let usage_line =
-                        self.get_line_from_offset(range.start().to_usize(), line_index);
-                    let start_char =
-                        self.get_char_position_from_offset(range.start().to_usize(), line_index);
-                    let end_char =
-                        self.get_char_position_from_offset(range.end().to_usize(), line_index);
+                    let (usage_line, start_char, end_char) =
+                        self.string_usage_span(content, range, &fixture_name, line_index);
 
                     info!(
                         "Found usefixtures usage on class: {} at {:?}:{}:{}",
@@ -341,8 +389,8 @@ impl FixtureDatabase {
                         file_path,
                         fixture_name,
                         usage_line,
-                        start_char + 1,
-                        end_char - 1,
+                        start_char,
+                        end_char,
                     );
                 }
             }
@@ -380,11 +428,8 @@ impl FixtureDatabase {
         for decorator in decorator_list {
             let usefixtures = decorators::extract_usefixtures_names(decorator);
             for (fixture_name, range) in usefixtures {
-                let usage_line = self.get_line_from_offset(range.start().to_usize(), line_index);
-                let start_char =
-                    self.get_char_position_from_offset(range.start().to_usize(), line_index);
-                let end_char =
-                    self.get_char_position_from_offset(range.end().to_usize(), line_index);
+                let (usage_line, start_char, end_char) =
+                    self.string_usage_span(content, range, &fixture_name, line_index);
 
                 info!(
                     "Found usefixtures usage on function: {} at {:?}:{}:{}",
@@ -395,8 +440,8 @@ impl FixtureDatabase {
                     file_path,
                     fixture_name,
                     usage_line,
-                    start_char + 1,
-                    end_char - 1,
+                    start_char,
+                    end_char,
                 );
             }
         }
@@ -405,11 +450,8 @@ impl FixtureDatabase {
         for decorator in decorator_list {
             let indirect_fixtures = decorators::extract_parametrize_indirect_fixtures(decorator);
             for (fixture_name, range) in indirect_fixtures {
-                let usage_line = self.get_line_from_offset(range.start().to_usize(), line_index);
-                let start_char =
-                    self.get_char_position_from_offset(range.start().to_usize(), line_index);
-                let end_char =
-                    self.get_char_position_from_offset(range.end().to_usize(), line_index);
+                let (usage_line, start_char, end_char) =
+                    self.string_usage_span(content, range, &fixture_name, line_index);
 
                 info!(
                     "Found parametrize indirect fixture usage: {} at {:?}:{}:{}",
@@ -420,8 +462,8 @@ impl FixtureDatabase {
                     file_path,
                     fixture_name,
                     usage_line,
-                    start_char + 1,
-                    end_char - 1,
+                    start_char,
+                    end_char,
                 );
             }
         }
@@ -666,6 +708,7 @@ impl FixtureDatabase {
         &self,
         value: Option<&Expr>,
         file_path: &PathBuf,
+        content: &str,
         line_index: &[usize],
     ) {
         let Some(value) = value else {
@@ -674,23 +717,15 @@ impl FixtureDatabase {
 
         let usefixtures = decorators::extract_usefixtures_from_expr(value);
         for (fixture_name, range) in usefixtures {
-            let usage_line = self.get_line_from_offset(range.start().to_usize(), line_index);
-            let start_char =
-                self.get_char_position_from_offset(range.start().to_usize(), line_index);
-            let end_char = self.get_char_position_from_offset(range.end().to_usize(), line_index);
+            let (usage_line, start_char, end_char) =
+                self.string_usage_span(content, range, &fixture_name, line_index);
 
             info!(
                 "Found usefixtures usage via pytestmark assignment: {} at {:?}:{}:{}",
                 fixture_name, file_path, usage_line, start_char
             );
 
-            self.record_fixture_usage(
-                file_path,
-                fixture_name,
-                usage_line,
-                start_char.saturating_add(1),
-                end_char.saturating_sub(1),
-            );
+            self.record_fixture_usage(file_path, fixture_name, usage_line, start_char, end_char);
         }
     }
 }
